@@ -95,7 +95,7 @@ theorem rest_run_pool {cfg : Cfg} (wf : WF cfg) (ord : List Path) (hord : ord.No
       (runActs (rgStage cfg rs fs) fs).fs.has (.processed c) = false := by
     intro e e' c hc; rw [FS.has, f1 _ rfl]; exact hnp0 e e' c hc
   have href1 : refOK cfg (runActs (rgStage cfg rs fs) fs).fs = true := by
-    simp only [refOK, FS.good] at href ⊢; rw [f1 _ rfl]; exact href
+    rw [refOK_frame (f1 _ rfl) (f1 _ rfl)]; exact href
   clear g1 f1 hsk hnsk h hsv hnp0 href
   generalize (runActs (rgStage cfg rs fs) fs).fs = fs1 at *
   -- stale locks
@@ -126,7 +126,7 @@ theorem rest_run_pool {cfg : Cfg} (wf : WF cfg) (ord : List Path) (hord : ord.No
   have hsv2 : cfg.fromSaves = true → SavesOK cfg (runActs (collectPre cfg rs skc fs1) fs1).fs := by
     intro e; rw [e2 (by subst hskc; simp [e])]; exact hsv1 e
   have href2 : refOK cfg (runActs (collectPre cfg rs skc fs1) fs1).fs = true := by
-    simp only [refOK, FS.good] at href1 ⊢; rw [f2 _ rfl]; exact href1
+    rw [refOK_frame (f2 _ rfl) (f2 _ rfl)]; exact href1
   clear g2 f2 r2 e2 n2 rg1 hsk1 hnsk1 j1 hsv1 hnp1 href1
   generalize (runActs (collectPre cfg rs skc fs1) fs1).fs = fs2 at *
   -- read collection: one task per chromosome, any schedule
@@ -146,7 +146,7 @@ theorem rest_run_pool {cfg : Cfg} (wf : WF cfg) (ord : List Path) (hord : ord.No
     -- with no collection every task is empty
     rw [(poolStage_skip _ _ _ _ (fun c _ => by subst hq; simp [collectChr])).1]; exact hsv2 e
   have href3 : refOK cfg (poolStage (collectChr fixed cfg rs skc) cfg.chrs s1 fs2).fs = true := by
-    simp only [refOK, FS.good] at href2 ⊢; rw [f3 _ (fun _ _ => rfl)]; exact href2
+    rw [refOK_frame (f3 _ (fun _ _ => rfl)) (f3 _ (fun _ _ => rfl))]; exact href2
   clear g3 f3 rg2 hsk2 hnl2 hnc2 hnp2 j2 hsv2 href2
   generalize (poolStage (collectChr fixed cfg rs skc) cfg.chrs s1 fs2).fs = fs3 at *
   -- multimappers, info, stage lock
@@ -163,7 +163,7 @@ theorem rest_run_pool {cfg : Cfg} (wf : WF cfg) (ord : List Path) (hord : ord.No
     · have hq' : skc = false := by simpa using hq
       exact savesOK_of_lock j4 (l4 hq')
   have href4 : refOK cfg (runActs (collectPost cfg skc fs3) fs3).fs = true := by
-    simp only [refOK, FS.good] at href3 ⊢; rw [f4 _ rfl]; exact href3
+    rw [refOK_frame (f4 _ rfl) (f4 _ rfl)]; exact href3
   clear g4 f4 hsk3 hnl3 hnp3 p3 j3 l4 e4 hsv3 href3
   generalize (runActs (collectPost cfg skc fs3) fs3).fs = fs4 at *
   -- final files opened
@@ -175,7 +175,7 @@ theorem rest_run_pool {cfg : Cfg} (wf : WF cfg) (ord : List Path) (hord : ord.No
   have hnp5 : rs = false → ∀ c ∈ cfg.chrs, (runActs (constructPre cfg fs4) fs4).fs.has (.processed c) = false := by
     intro e c hc; rw [FS.has, f5 _ rfl]; exact hnp4 e c hc
   have href5 : refOK cfg (runActs (constructPre cfg fs4) fs4).fs = true := by
-    simp only [refOK, FS.good] at href4 ⊢; rw [f5 _ rfl]; exact href4
+    rw [refOK_frame (f5 _ rfl) (f5 _ rfl)]; exact href4
   clear g5 f5 sv4 hnp4 j4 href4
   generalize (runActs (constructPre cfg fs4) fs4).fs = fs5 at *
   -- model construction: one task per chromosome, any schedule
@@ -221,7 +221,7 @@ theorem rest_run_pool {cfg : Cfg} (wf : WF cfg) (ord : List Path) (hord : ord.No
       exact fin8 p hp
     clear g9 f9 fin8 j8
     generalize (runActs (cleanupLocks fixed cfg fs8) fs8).fs = fs9 at *
-    obtain ⟨g10, nl10, f10⟩ := glob_stage j9 nl9 isSaveAux rfl ord hord
+    obtain ⟨g10, nl10, f10⟩ := glob_stage j9 nl9 isSaveAux rfl rfl ord hord
     have j10 := good_J_acts g10
     refine seq_cons_seq (Q := FinOK cfg) g10 ?_
     have fin10 : ∀ p ∈ finalPaths cfg, (runActs (globStage isSaveAux ord fs9) fs9).fs.good p = true := by
@@ -231,7 +231,7 @@ theorem rest_run_pool {cfg : Cfg} (wf : WF cfg) (ord : List Path) (hord : ord.No
       exact fin9 p hp
     clear g10 f10 fin9 j9 nl9
     generalize (runActs (globStage isSaveAux ord fs9) fs9).fs = fs10 at *
-    obtain ⟨g11, nl11, f11⟩ := glob_stage j10 nl10 isRgAux rfl ord hord
+    obtain ⟨g11, nl11, f11⟩ := glob_stage j10 nl10 isRgAux rfl rfl ord hord
     have j11 := good_J_acts g11
     refine seq_cons_seq (Q := FinOK cfg) g11 ?_
     refine ⟨⟨rfl, j11⟩, ?_⟩
@@ -311,14 +311,11 @@ theorem rest_run_pool_ref {cfg : Cfg} (wf : WF cfg) (ord : List Path) (hord : or
   obtain ⟨g0, _, f0, r0⟩ := ref_stage rs h
   refine seq_cons_seq (Q := FinOK cfg) g0 ?_
   apply rest_run_pool wf ord hord rs sk s1 s2 (good_J_acts g0) hskrs
-  · intro e; rw [FS.has, f0 _ (by simp)]; exact hsk e
-  · intro e e' e''; rw [FS.has, f0 _ (by simp)]; exact hnsk e e' e''
-  · intro e; exact savesOK_frame (hsv e) (f0 _ (by simp)) (fun _ => f0 _ (by simp)) (fun _ => f0 _ (by simp))
-  · intro e e' c hc; rw [FS.has, f0 _ (by simp)]; exact hnp0 e e' c hc
-  · simp only [refOK, Bool.or_eq_true, Bool.not_eq_true']
-    cases hg : cfg.gzRef with
-    | false => exact Or.inl rfl
-    | true => exact Or.inr (r0 hg)
+  · intro e; rw [FS.has, f0 _ rfl]; exact hsk e
+  · intro e e' e''; rw [FS.has, f0 _ rfl]; exact hnsk e e' e''
+  · intro e; exact savesOK_frame (hsv e) (f0 _ rfl) (fun _ => f0 _ rfl) (fun _ => f0 _ rfl)
+  · intro e e' c hc; rw [FS.has, f0 _ rfl]; exact hnp0 e e' c hc
+  · exact r0
 
 /-- a fresh pool run = the removal of the lock files found, then the run on the cleaned folder -/
 theorem runPool_split {cfg : Cfg} (wf : WF cfg) (ord : List Path) (s1 s2 : List Chr) (fs : FS) :
